@@ -173,7 +173,29 @@ func ruleA4Confine(r *Run, p *Prog) {
 	n, inAllowed := 0, 0
 	// helpers private to their callers (e.g. a "flush the pending run" function) are judged inside
 	// the functions that call them: the allow-list names the audited entry points
-	audited := func(g *ssa.Function) bool { _, ok := a4Allowed[canonFn(g)]; return ok }
+	cxs := map[*ssa.Function]bool{}
+	for _, n := range []string{"appendStringComplex", "appendBytesComplex"} {
+		if f := p.Func("internal/json", n); f != nil {
+			cxs[f] = true
+		}
+	}
+	// a function that delegates to a complex escaper is a fast path: ruleA4JSON holds it to the
+	// certified-scan discipline, so its raw whole-text copy is audited there
+	delegates := func(g *ssa.Function) bool {
+		found := false
+		eachInstr(g, func(b *ssa.BasicBlock, i int, in ssa.Instruction) {
+			if c, ok := in.(*ssa.Call); ok && cxs[staticCallee(&c.Call)] {
+				found = true
+			}
+		})
+		return found
+	}
+	audited := func(g *ssa.Function) bool {
+		if _, ok := a4Allowed[canonFn(g)]; ok {
+			return true
+		}
+		return g.Blocks != nil && delegates(g)
+	}
 	for _, f := range p.RootViews([]string{"internal/json"}, "keep-audited", audited) {
 		var d map[ssa.Value]bool
 		eachInstr(f, func(b *ssa.BasicBlock, i int, in ssa.Instruction) {
@@ -195,7 +217,10 @@ func ruleA4Confine(r *Run, p *Prog) {
 				return
 			}
 			n++
-			if why, ok := a4Allowed[canonFn(viewRoot(f))]; ok {
+			if why, ok := a4Allowed[canonFn(viewRoot(f))]; ok || delegates(viewRoot(f)) {
+				if !ok {
+					why = "fast path of a complex escaper (certified scan checked by the fast-path rule)"
+				}
 				inAllowed++
 				r.Ob("A4", FnName(f)+"/raw-append-allowed", p.Pos(c.Pos()), true, false, "raw append of caller text inside "+f.Name()+": "+why)
 				return
@@ -1150,6 +1175,11 @@ func ruleEscaperFastOn(r *Run, p *Prog, rule string, f *ssa.Function, text ssa.V
 			return
 		}
 		spread, _ := appendElems(c)
+		// the complex escaper copies the pending prefix text[:i] itself: a fast path that also
+		// copies part of the text writes those bytes twice
+		if sl, isSl := spread.(*ssa.Slice); isSl && sl.X == text && complexFn != nil {
+			r.Ob(rule, name+"/no-partial-copy", p.Pos(c.Pos()), false, true, "the fast path appends "+descr(sl)+" itself before handing the whole text to "+FnName(complexFn)+", which copies that prefix again: the bytes before the first escaped character are written twice")
+		}
 		if spread == text && (exempt == nil || !exempt(c)) {
 			raws = append(raws, c)
 		}
@@ -1258,6 +1288,37 @@ func ruleA4JSON(r *Run, p *Prog) {
 		cx = p.View(cx, "", nil)
 		ruleEscaperFast(r, p, "A4", fast, 2, table, cxOrig)
 		ruleEscaperComplex(r, p, "A4", cx, 1, table)
+		// any other function of the package that delegates to this escaper (an inlined fast path
+		// in AppendKey, say) is held to the same discipline, for the text it hands over
+		fastOrig := viewRoot(fast)
+		for _, g := range p.ModFns {
+			if pkgRel(g) != "internal/json" || g == fastOrig || g == cxOrig || g.Blocks == nil || g.Parent() != nil {
+				continue
+			}
+			var text ssa.Value
+			eachInstr(g, func(b *ssa.BasicBlock, i int, in ssa.Instruction) {
+				if c, ok := in.(*ssa.Call); ok && staticCallee(&c.Call) == cxOrig && len(c.Call.Args) >= 2 {
+					text = c.Call.Args[1]
+				}
+			})
+			if text == nil {
+				continue
+			}
+			if par, isPar := text.(*ssa.Parameter); isPar {
+				gv := p.View(g, "keep-complex", func(h *ssa.Function) bool { return h == cxOrig })
+				pi := -1
+				for k, q := range g.Params {
+					if q == par {
+						pi = k
+					}
+				}
+				if pi >= 0 && pi < len(gv.Params) {
+					ruleEscaperFastOn(r, p, "A4", gv, gv.Params[pi], table, cxOrig, nil)
+					continue
+				}
+			}
+			r.Ob("A4", FnName(g)+"/delegates", p.Pos(g.Pos()), false, true, FnName(g)+" hands "+descr(text)+" to "+FnName(cxOrig)+": not one of its own parameters (undecided)")
+		}
 	}
 	// the table itself: filled only by the init loop with the documented predicate (not evaluated; its
 	// defining expression is compared structurally)
@@ -1671,4 +1732,105 @@ func ruleFloatGuard(r *Run, p *Prog) {
 	if n == 0 {
 		r.Fail("A4", "float-finite", "-", "no strconv float formatting found in internal/json (rule lost its grip)")
 	}
+}
+
+// ruleDefaultInterfaceMarshal: the pre-encoded channel AppendInterface splices whatever
+// InterfaceMarshalFunc returns. Its default must hand back only bytes produced by encoding/json's
+// encoder (Encoder.Encode into a local buffer, or json.Marshal): that encoder validates and
+// compacts the output of user MarshalJSON methods, so the fragment is one line of valid JSON.
+// A shortcut returning a user method's bytes as they are can put raw newlines into the event.
+func ruleDefaultInterfaceMarshal(r *Run, p *Prog) {
+	rule := "A4"
+	g := p.Global("", "InterfaceMarshalFunc")
+	if !r.Anchor(g != nil, rule, "InterfaceMarshalFunc") {
+		return
+	}
+	var fn *ssa.Function
+	if g.Pkg != nil {
+		if pi := g.Pkg.Func("init"); pi != nil {
+			eachInstr(pi, func(b *ssa.BasicBlock, i int, in ssa.Instruction) {
+				if st, ok := in.(*ssa.Store); ok && st.Addr == ssa.Value(g) {
+					switch v := st.Val.(type) {
+					case *ssa.Function:
+						fn = v
+					case *ssa.MakeClosure:
+						fn, _ = v.Fn.(*ssa.Function)
+					}
+				}
+			})
+		}
+	}
+	if fn == nil || fn.Blocks == nil {
+		r.Ob(rule, "InterfaceMarshalFunc/default", p.Pos(g.Pos()), false, true, "the default value of InterfaceMarshalFunc cannot be determined (not a function literal or named function assigned in the package initialiser)")
+		return
+	}
+	v := p.View(fn, "", nil)
+	okAll, why, n := true, "", 0
+	var fromJSON func(x ssa.Value, depth int) bool
+	fromJSON = func(x ssa.Value, depth int) bool {
+		if depth > 6 {
+			return false
+		}
+		if isNilConst(x) {
+			return true
+		}
+		switch y := x.(type) {
+		case *ssa.Slice:
+			return fromJSON(y.X, depth+1)
+		case *ssa.Phi:
+			for _, e := range y.Edges {
+				if !fromJSON(e, depth+1) {
+					return false
+				}
+			}
+			return true
+		case *ssa.Extract:
+			if c, ok := y.Tuple.(*ssa.Call); ok && y.Index == 0 {
+				return isCallTo(&c.Call, "encoding/json.Marshal")
+			}
+		case *ssa.Call:
+			if isCallTo(&y.Call, "(*bytes.Buffer).Bytes") && len(y.Call.Args) == 1 {
+				al, ok := y.Call.Args[0].(*ssa.Alloc)
+				if !ok {
+					return false
+				}
+				// the buffer is written only by an encoding/json Encoder created on it
+				enc := false
+				for _, ref := range referrersOf(al) {
+					switch z := ref.(type) {
+					case *ssa.MakeInterface:
+						for _, r2 := range referrersOf(z) {
+							if c, ok := r2.(*ssa.Call); ok && isCallTo(&c.Call, "encoding/json.NewEncoder") {
+								enc = true
+							} else {
+								return false
+							}
+						}
+					case *ssa.Call:
+						if !(isCallTo(&z.Call, "(*bytes.Buffer).Bytes") || isCallTo(&z.Call, "(*bytes.Buffer).Len") || isCallTo(&z.Call, "(*bytes.Buffer).Reset") || isCallTo(&z.Call, "(*bytes.Buffer).Grow")) {
+							return false
+						}
+					case *ssa.DebugRef:
+					default:
+						return false
+					}
+				}
+				return enc
+			}
+		}
+		return false
+	}
+	eachInstr(v, func(b *ssa.BasicBlock, i int, in ssa.Instruction) {
+		ret, ok := in.(*ssa.Return)
+		if !ok || len(ret.Results) == 0 {
+			return
+		}
+		n++
+		if !fromJSON(ret.Results[0], 0) {
+			okAll = false
+			why = descr(ret.Results[0])
+		}
+	})
+	okc := okAll && n > 0
+	r.Ob(rule, "InterfaceMarshalFunc/default", p.Pos(fn.Pos()), okc, true, tern(okc, "the default marshaler returns only what encoding/json's encoder produced (validated, compacted, one line)", "the default InterfaceMarshalFunc returns "+why+", bytes that did not pass through encoding/json's encoder: a user MarshalJSON that returns indented JSON puts raw newlines into the event"))
 }
